@@ -3537,7 +3537,8 @@ class EndMatch(Match):
         ok_state = DFState()
         sm.add(ok_state)
         sm.mark_accepting(ok_state)
-        start_state.transition(DFTransition([DFTransition.End]).attach(*self.start_actions, *self.char_actions, *self.finish_actions).to(ok_state))
+        # (no character is consumed here, so the each-character actions -- an append, a foreach body -- have nothing to run on)
+        start_state.transition(DFTransition([DFTransition.End]).attach(*self.start_actions, *self.finish_actions).to(ok_state))
         start_state.transition(DFTransition([DFTransition.Else]).to(current_error_handlers[ErrorReasons.NO_MATCH]).attach(*self.start_actions).fallthrough().handles_else())
         return sm
 
@@ -4216,6 +4217,8 @@ class ForeachNode(ActionSinkNode, ActionSourceNode):
             for transition in state.all_transitions():
                 if transition.target in ignored_targets or transition.is_fallthrough:
                     continue
+                if set(transition.on_values) == {DFTransition.End}:
+                    continue # end-of-input is not a character
                 transition.attach(*self.each_actions, prepend=True)
 
         if self.next is not None:
